@@ -71,6 +71,20 @@ func (n *NotIface) Get(a int, s string) int { return 0 }
 func (n *NotIface) Put(x int)               {}
 
 var iv I
+
+// Held implements I and has methods of its own besides
+type Held struct{ v int }
+
+func (h *Held) Get(a int, s string) int { return -21 }
+func (h *Held) Put(x int)               {}
+
+//go:noinline
+func (h *Held) Extra(a int) int { return -22 }
+
+//go:noinline
+func (h *Held) Extra2(a int, s string) int { return -23 }
+
+var ivHeld I = &Held{}
 var errT = reflect.TypeOf((*error)(nil)).Elem()
 
 func sizeVariant(t reflect.Type) reflect.Type {
@@ -306,6 +320,39 @@ func TestC13(t *testing.T) {
 				tg.handle(b).When(as...)
 			}})
 		}
+		if len(outs) > 0 {
+			// no value at all, on each route that takes a value list
+			ms = append(ms, mistake{"return-too-few-values", fmt.Sprintf("Return() with 0 of %d", len(outs)), func(b *mocker.Builder) {
+				tg.handle(b).Return()
+			}})
+			ms = append(ms, mistake{"return-too-few-values", fmt.Sprintf("When(..).Return() with 0 of %d", len(outs)), func(b *mocker.Builder) {
+				as := make([]interface{}, nargs)
+				for i := range as {
+					as[i] = goodValue(ins[skip+i])
+				}
+				tg.handle(b).When(as...).Return()
+			}})
+			ms = append(ms, mistake{"return-too-few-values", fmt.Sprintf("Return(good).AndReturn() with 0 of %d", len(outs)), func(b *mocker.Builder) {
+				vs := make([]interface{}, len(outs))
+				for i := range vs {
+					vs[i] = goodValue(outs[i])
+				}
+				as := make([]interface{}, nargs)
+				for i := range as {
+					as[i] = goodValue(ins[skip+i])
+				}
+				tg.handle(b).When(as...).Return(vs...).AndReturn()
+			}})
+		}
+		if len(outs) >= 2 {
+			ms = append(ms, mistake{"returns-sequence-too-few-values", "an empty tuple after a good one", func(b *mocker.Builder) {
+				vs := make([]interface{}, len(outs))
+				for i := range vs {
+					vs[i] = goodValue(outs[i])
+				}
+				tg.handle(b).Returns(vs, []interface{}{})
+			}})
+		}
 		for k := 1; k < len(outs); k++ {
 			k := k
 			ms = append(ms, mistake{"return-too-few-values", fmt.Sprintf("%d of %d", k, len(outs)), func(b *mocker.Builder) {
@@ -427,9 +474,22 @@ func TestC13(t *testing.T) {
 				c := map[string]interface{}{"target": tg.name, "mistake": m.class, "detail": m.desc, "already_mocked": pre}
 				rep.Class(fmt.Sprintf("%s/%s/premocked=%v", tg.name, m.class, pre))
 				if perr == nil {
-					rep.Violate("C13/mistake-accepted", fmt.Sprintf("%s: %s (%s) was not rejected", tg.name, m.class, m.desc), c)
+					key := "C13/mistake-accepted"
+					if strings.HasPrefix(m.desc, "Return() with 0") {
+						key = "C13/return-without-values-accepted"
+					}
+					rep.Violate(key, fmt.Sprintf("%s: %s (%s) was not rejected", tg.name, m.class, m.desc), c)
 				} else if why := chainProblem(perr); why != "" {
 					rep.Violate("C13/cause-chain", fmt.Sprintf("%s: %s (%s): %s", tg.name, m.class, m.desc, why), c)
+				}
+				// the mistake follows a well-formed When(...) in the same chain; that call is a configuration of its
+				// own which installs the stub, so only the rejection itself is asserted
+				if strings.HasPrefix(m.desc, "When(..).Return()") || strings.HasPrefix(m.desc, "Return(good).AndReturn()") {
+					b0.Reset()
+					if tg.isIface {
+						iv = nil
+					}
+					continue
 				}
 				if after := tg.state(); after != before {
 					rep.Violate("C13/behaviour-changed-by-rejected-call", fmt.Sprintf("%s: %s (%s): behaviour before %q after %q", tg.name, m.class, m.desc, before, after), c)
@@ -471,6 +531,16 @@ func TestC13(t *testing.T) {
 		{"unknown-method", "Struct(&T{}).Method(\"\")", func(b *mocker.Builder) { b.Struct(&T{}).Method("").Return(1) }},
 		{"unknown-method", "Struct(&T{}).ExportMethod(nope).Apply", func(b *mocker.Builder) { b.Struct(&T{}).ExportMethod("nope").Apply(func(t *T) {}) }},
 		{"unknown-method", "Interface(&iv).Method(Nope)", func(b *mocker.Builder) { b.Interface(&iv).Method("Nope") }},
+		// the variable holds a value whose own type has more methods than the interface: those are not the interface's
+		{"unknown-method", "Interface(&held).Method(Extra) [method of the held value's type only]", func(b *mocker.Builder) {
+			b.Interface(&ivHeld).Method("Extra").As(func(ctx *mocker.IContext, a int) int { return 0 }).Return(1)
+		}},
+		{"unknown-method", "Interface(&held).Method(Extra).Apply", func(b *mocker.Builder) {
+			b.Interface(&ivHeld).Method("Extra").Apply(func(ctx *mocker.IContext, a int) int { return 0 })
+		}},
+		{"unknown-method", "Interface(&held).Method(Extra2).Apply [same signature as Get]", func(b *mocker.Builder) {
+			b.Interface(&ivHeld).Method("Extra2").Apply(func(ctx *mocker.IContext, a int, s string) int { return 0 })
+		}},
 		{"unknown-symbol", "ExportFunc(nope).Apply", func(b *mocker.Builder) { b.ExportFunc("nope").Apply(func() {}) }},
 		{"unknown-symbol", "ExportFunc(nope).As", func(b *mocker.Builder) { b.ExportFunc("nope").As(func() {}).Return() }},
 		{"unknown-symbol", "Pkg(x).ExportFunc(foo).As", func(b *mocker.Builder) {
@@ -536,7 +606,8 @@ func TestC13(t *testing.T) {
 		{"var-not-pointer", "Var(5)", func(b *mocker.Builder) { b.Var(5).Set(6) }},
 	}
 	all := func() string {
-		return fmt.Sprint(F1(1), F2(1, "s"), (&T{}).M(1, "s"), foo(1), fooBar(1), *(*[2]uintptr)(unsafe.Pointer(&iv)))
+		return fmt.Sprint(F1(1), F2(1, "s"), (&T{}).M(1, "s"), foo(1), fooBar(1), *(*[2]uintptr)(unsafe.Pointer(&iv)),
+			*(*[2]uintptr)(unsafe.Pointer(&ivHeld)), ivHeld.Get(1, "s"), ivHeld.(*Held).Extra(1), ivHeld.(*Held).Extra2(1, "s"))
 	}
 	for _, m := range misc {
 		iv = nil
